@@ -6,7 +6,7 @@
 #include "dsched.hpp"
 namespace vhooks {
 	using vclock::rel_of; using vclock::note_rmw;
-#define VERIF_RMW(name) template<typename P, typename V> inline auto name(P p, V v, int mo) { dsched::point(); rel_of(p).on_rmw((std::memory_order)mo); vclock::mirror_write(p, (std::memory_order)mo); auto r = __atomic_##name(p, v, mo); vclock::mirror_read(p, (std::memory_order)mo); note_rmw(); return r; }
+#define VERIF_RMW(name) template<typename P, typename V> inline auto name(P p, V v, int mo) { dsched::point_rmw(); rel_of(p).on_rmw((std::memory_order)mo); vclock::mirror_write(p, (std::memory_order)mo); auto r = __atomic_##name(p, v, mo); vclock::mirror_read(p, (std::memory_order)mo); note_rmw(); return r; }
 	VERIF_RMW(fetch_add) VERIF_RMW(fetch_sub) VERIF_RMW(fetch_or) VERIF_RMW(fetch_and) VERIF_RMW(fetch_xor) VERIF_RMW(fetch_nand)
 	VERIF_RMW(add_fetch) VERIF_RMW(sub_fetch) VERIF_RMW(or_fetch) VERIF_RMW(and_fetch) VERIF_RMW(xor_fetch) VERIF_RMW(nand_fetch) VERIF_RMW(exchange_n)
 #undef VERIF_RMW
@@ -14,15 +14,15 @@ namespace vhooks {
 	template<typename P, typename R> inline void load(P p, R ret, int mo) { dsched::point(); __atomic_load(p, ret, mo); rel_of(p).on_load((std::memory_order)mo); vclock::mirror_read(p, (std::memory_order)mo); }
 	template<typename P, typename V> inline void store_n(P p, V v, int mo) { dsched::point(); rel_of(p).on_store((std::memory_order)mo); vclock::mirror_write(p, (std::memory_order)mo); __atomic_store_n(p, v, mo); }
 	template<typename P, typename V> inline void store(P p, V v, int mo) { dsched::point(); rel_of(p).on_store((std::memory_order)mo); vclock::mirror_write(p, (std::memory_order)mo); __atomic_store(p, v, mo); }
-	template<typename P, typename V, typename R> inline void exchange(P p, V v, R ret, int mo) { dsched::point(); rel_of(p).on_rmw((std::memory_order)mo); vclock::mirror_write(p, (std::memory_order)mo); __atomic_exchange(p, v, ret, mo); vclock::mirror_read(p, (std::memory_order)mo); note_rmw(); }
+	template<typename P, typename V, typename R> inline void exchange(P p, V v, R ret, int mo) { dsched::point_rmw(); rel_of(p).on_rmw((std::memory_order)mo); vclock::mirror_write(p, (std::memory_order)mo); __atomic_exchange(p, v, ret, mo); vclock::mirror_read(p, (std::memory_order)mo); note_rmw(); }
 	// compare-exchange: a read-modify-write with the success order when it succeeds, a load with the failure order when it fails
 	template<typename P, typename E, typename V> inline bool compare_exchange_n(P p, E e, V v, bool weak, int smo, int fmo) {
-		dsched::point();
+		dsched::point_rmw();
 		auto cur = __atomic_load_n(p, __ATOMIC_RELAXED);
 		if(cur == *e) { rel_of(p).on_rmw((std::memory_order)smo); vclock::mirror_write(p, (std::memory_order)smo); bool ok = __atomic_compare_exchange_n(p, e, v, false, smo, fmo); vclock::mirror_read(p, (std::memory_order)smo); if(ok) note_rmw(); return ok; }
 		(void)weak; *e = __atomic_load_n(p, fmo); rel_of(p).on_load((std::memory_order)fmo); vclock::mirror_read(p, (std::memory_order)fmo); return false;
 	}
-	template<typename P> inline bool test_and_set(P p, int mo) { dsched::point(); rel_of(p).on_rmw((std::memory_order)mo); vclock::mirror_write(p, (std::memory_order)mo); bool r = __atomic_test_and_set(p, mo); vclock::mirror_read(p, (std::memory_order)mo); note_rmw(); return r; }
+	template<typename P> inline bool test_and_set(P p, int mo) { dsched::point_rmw(); rel_of(p).on_rmw((std::memory_order)mo); vclock::mirror_write(p, (std::memory_order)mo); bool r = __atomic_test_and_set(p, mo); vclock::mirror_read(p, (std::memory_order)mo); note_rmw(); return r; }
 	template<typename P> inline void clear(P p, int mo) { dsched::point(); rel_of(p).on_store((std::memory_order)mo); vclock::mirror_write(p, (std::memory_order)mo); __atomic_clear(p, mo); }
 	inline void thread_fence(int mo) { dsched::point(); __atomic_thread_fence(mo); vclock::on_fence((std::memory_order)mo); vclock::mirror_fence((std::memory_order)mo); }
 }
